@@ -37,9 +37,11 @@ structure SClosed (now : Nat) (ok : Nat → Prop) (P : Eff → Prop) : Prop wher
   crashed : ∀ e l, P e → P { e with ps := { e.ps with crashed := l } }
   cancels : ∀ e l, P e → P { e with cancels := l }
   hookObs : ∀ e h, P e → P (addObs e (.hook now h))
-  /-- the hook tables and the `level` attributes of entities (written by `Act.addHook` / `Act.metric`) -/
-  aux : ∀ e hookOf late lateAtt level, P e →
-      P { e with ps := { e.ps with hookOf := hookOf, late := late, lateAtt := lateAtt, level := level } }
+  /-- the hook tables, the `level` attributes of entities and the hop metadata of events (written by
+      `Act.addHook` / `Act.metric` / `Act.relay` and by the start of a segment) -/
+  aux : ∀ e hookOf late lateAtt level hopsOf cur, P e →
+      P { e with ps := { e.ps with hookOf := hookOf, late := late, lateAtt := lateAtt, level := level,
+                                   hopsOf := hopsOf, cur := cur } }
 
 section generic
 variable {now : Nat} {ok : Nat → Prop} {P : Eff → Prop}
@@ -141,10 +143,15 @@ theorem runAct_s (hc : SClosed now ok P) (e : Eff) (a : Act) (ha : bindOk ok a) 
     split
     · unfold addHookTo
       split
-      · exact hc.aux e _ _ _ _ h
-      · exact hc.aux e _ _ _ _ h
+      · exact hc.aux e _ _ _ _ _ _ h
+      · exact hc.aux e _ _ _ _ _ _ h
     · exact h
-  | metric x abs v => exact hc.aux e _ _ _ _ h
+  | metric x abs v => exact hc.aux e _ _ _ _ _ _ h
+  | relay tgt kind delay limit daemon =>
+    simp only [runAct]
+    split
+    · exact hc.aux _ _ _ _ _ _ _ (hc.push _ _ _ _ rfl h)
+    · exact h
 
 theorem acts_s (hc : SClosed now ok P) (acts : List Act) (e : Eff) (ha : ∀ a ∈ acts, bindOk ok a)
     (h : P e) : P (acts.foldl (runAct now) e) := by
